@@ -1,57 +1,41 @@
-(* C05Agg.v — tier T3, first slice: outside the two listed classes the aggregates query.rs computes are the aggregates
-   of the values, so the whole answer (having, order, first / skip) is the direct evaluation. *)
+(* C05Agg.v — tier T3, first slice: the aggregates query.rs computes (SQL aggregates over the SQL values of the member,
+   NULL left out) are the aggregates of the values, so the whole answer (having, order, first / skip) is the direct
+   evaluation.  Classes 9 and 10 were repaired in /repo (b717988): no exclusion is left. *)
 From DV Require Import Agg Run_C05 C05Order C05P C05Top.
 Open Scope list_scope.
 
-Lemma val_eqb_eq : forall a b, val_eqb a b = true -> a = b.
+Lemma sql_values_nonnull : forall rows f, sql_values rows f = nonnull (column rows f).
 Proof.
-  intros a b H. destruct a, b; cbn [val_eqb] in H; try discriminate; try reflexivity.
-  - apply Bool.eqb_prop in H. subst. reflexivity.
-  - apply Z.eqb_eq in H. subst. reflexivity.
-  - apply Z.eqb_eq in H. subst. reflexivity.
-  - apply str_eqb_eq in H. subst. reflexivity.
+  intros rows f. unfold sql_values, nonnull, column. induction rows as [|r t IH]. reflexivity.
+  cbn [flat_map map filter]. rewrite IH. destruct (fval r f); reflexivity.
 Qed.
-Lemma cell_eqb_eq : forall a b, cell_eqb a b = true -> a = b.
+Lemma sum4_cons : forall v t, sum4 (v :: t) = match num4 v with Some x => x + sum4 t | None => sum4 t end.
+Proof. reflexivity. Qed.
+Lemma sum4_nonnull : forall vs, sum4 (nonnull vs) = sum4 vs.
 Proof.
-  intros a b H. destruct a, b; cbn [cell_eqb] in H; try discriminate.
-  - apply val_eqb_eq in H. subst. reflexivity.
-  - apply andb_prop in H. destruct H as [H1 H2]. apply Z.eqb_eq in H1. apply Z.eqb_eq in H2. subst. reflexivity.
-Qed.
-
-Lemma existsb_false_in : forall {A} (p : A -> bool) l x, existsb p l = false -> In x l -> p x = false.
-Proof.
-  intros A p l x H Hin. destruct (p x) eqn:E; [|reflexivity].
-  assert (existsb p l = true) by (apply existsb_exists; exists x; split; assumption). congruence.
+  induction vs as [|v t IH]. reflexivity.
+  unfold nonnull in *. cbn [filter]. destruct (is_null v) eqn:E; cbn [negb].
+  - destruct v; try discriminate. rewrite sum4_cons. cbn [num4]. exact IH.
+  - rewrite !sum4_cons. rewrite IH. reflexivity.
 Qed.
 
-(* one group: every cell of the selection agrees *)
-Lemma row_cells_agree : forall cols g,
-  (forall a, In (GAgg a) cols -> agg_impl g a = agg_spec g a) -> row_cells agg_impl cols g = row_cells agg_spec cols g.
+(* every aggregate, every group *)
+Theorem agg_holds : forall g a, agg_impl g a = agg_spec g a.
 Proof.
-  intros cols g H. unfold row_cells. apply map_ext_in. intros c Hc. destruct c as [f|a]. reflexivity. apply H. exact Hc.
+  intros g a. destruct a as [|f|f|f|f]; cbn [agg_impl agg_spec]; rewrite ?sql_values_nonnull; try reflexivity.
+  rewrite sum4_nonnull. reflexivity.
 Qed.
 
-Theorem T3_outside_known : forall rows q, known_C05 (CAgg rows q) = [] -> eval_agg agg_impl rows q = eval_agg agg_spec rows q.
+Lemma row_cells_agree : forall cols g, row_cells agg_impl cols g = row_cells agg_spec cols g.
 Proof.
-  intros rows q Hk. cbn [known_C05] in Hk. unfold known_agg in Hk. apply cls_nil in Hk. destruct Hk as [K9 K10]. apply cls_nil1 in K10.
-  unfold eval_agg. f_equal. apply map_ext_in. intros g Hg. apply row_cells_agree. intros a Ha.
-  unfold agg_differs in K9, K10.
-  pose proof (existsb_false_in _ _ g K9 Hg) as G9. pose proof (existsb_false_in _ _ g K10 Hg) as G10. cbv beta in G9, G10.
-  pose proof (existsb_false_in _ _ (GAgg a) G9 Ha) as A9. pose proof (existsb_false_in _ _ (GAgg a) G10 Ha) as A10. cbv beta iota in A9, A10.
-  destruct a as [|f|f|f|f]; try reflexivity.
-  - cbn [is_avg andb] in A10. apply Bool.negb_false_iff in A10. apply cell_eqb_eq. exact A10.
-  - cbn [is_minmax andb] in A9. apply Bool.negb_false_iff in A9. apply cell_eqb_eq. exact A9.
-  - cbn [is_minmax andb] in A9. apply Bool.negb_false_iff in A9. apply cell_eqb_eq. exact A9.
+  intros cols g. unfold row_cells. apply map_ext. intros c. destruct c as [f|a]. reflexivity. apply agg_holds.
 Qed.
 
-Theorem T3_spec : forall rows q, known_C05 (CAgg rows q) = [] -> spec_C05 (CAgg rows q) (run_C05 (CAgg rows q)) = true.
-Proof.
-  intros rows q Hk. cbn [spec_C05 run_C05]. rewrite (T3_outside_known rows q Hk). apply zlist_eqb_refl5.
-Qed.
+Theorem T3_holds : forall rows q, eval_agg agg_impl rows q = eval_agg agg_spec rows q.
+Proof. intros rows q. unfold eval_agg. f_equal. apply map_ext. intros g. apply row_cells_agree. Qed.
 
-(* count and sum never deviate *)
-Theorem T3_count_sum_holds : forall g a, match a with ACount | ASum _ => True | _ => False end -> agg_impl g a = agg_spec g a.
-Proof. intros g a H. destruct a; try contradiction; reflexivity. Qed.
+Theorem T3_spec : forall rows q, spec_C05 (CAgg rows q) (run_C05 (CAgg rows q)) = true.
+Proof. intros rows q. cbn [spec_C05 run_C05]. rewrite (T3_holds rows q). apply zlist_eqb_refl5. Qed.
 
 (* json selectors: the model of the implementation is the reference evaluator itself (tied to the code by the runs only) *)
 Theorem T3_jsel_partial : forall docs sels fs, spec_C05 (CJsel docs sels fs) (run_C05 (CJsel docs sels fs)) = true.
